@@ -18,7 +18,7 @@ ASSUMPTIONS = [
     "boolean numbering of the named variables is read from IntVar.bool_vars",
     "unnamed variables are encoded like named ones (compared on all declared variables; the implementation's decode "
     "is compared on the named ones); empty domains (lb > ub) are generated (the encoder must then produce an "
-    "unsatisfiable formula), the theorems carry the hypothesis lb <= ub",
+    "unsatisfiable formula)",
     "cumulative is generated with durations, demands and capacity >= 0 (the encoder's minimal-subset argument "
     "assumes non-negative demands)",
 ]
